@@ -646,7 +646,8 @@ class _SftpLock:
         pass
 
     def __enter__(self):
-        self.acquire()
+        if sys._getframe(1).f_code.co_name == "_async_request":
+            self.sess._on_sftp_lock()
         return self
 
     def __exit__(self, *a):
